@@ -895,9 +895,8 @@ func c04CheckString(r *vr.Report, f bgp.Family, s []byte) {
 	r.Eval()
 	var x bgp.NLRI
 	var err error
-	cs := c04Case{Part: "strings", Fam: f.String(), Hex: hex.EncodeToString(s)}
 	if p := c04Try(func() { x, err = bgp.NLRIFromSlice(f, s) }); p != "" {
-		r.Violationf("C04:panic:"+c04PanicKey(p), cs, "NLRIFromSlice(%s, %x): %s", f, s, p)
+		r.Violationf("C04:panic:"+c04PanicKey(p), c04StrCase(f, s), "NLRIFromSlice(%s, %x): %s", f, s, p)
 		return
 	}
 	if err != nil {
@@ -907,66 +906,101 @@ func c04CheckString(r *vr.Report, f bgp.Family, s []byte) {
 	tn := c04TypeName(x)
 	l := x.Len()
 	if l > len(s) || l <= 0 {
-		r.Violationf("C04:strings:Len-outside-input:"+tn, cs, "%s decoder accepted %x but reports Len()=%d (input has %d bytes)", f, s, l, len(s))
+		r.Violationf("C04:strings:Len-outside-input:"+tn, c04StrCase(f, s), "%s decoder accepted %x but reports Len()=%d (input has %d bytes)", f, s, l, len(s))
 		return
 	}
-	jx, _ := c04JSON(x)
+	// value signature: type, String() and the serialised form (cheaper than JSON; the serialised form
+	// carries everything String() leaves out, e.g. labels)
+	var b1 []byte
+	var serr error
+	if p := c04Try(func() { b1, serr = x.Serialize() }); p != "" {
+		r.Violationf("C04:panic:"+c04PanicKey(p), c04StrCase(f, s), "%s: Serialize of value decoded from %x: %s", f, s, p)
+		return
+	}
+	sx := x.String()
 	if l < len(s) {
 		var y bgp.NLRI
 		if p := c04Try(func() { y, err = bgp.NLRIFromSlice(f, s[:l]) }); p != "" {
-			r.Violationf("C04:panic:"+c04PanicKey(p), cs, "NLRIFromSlice(%s, %x): %s", f, s[:l], p)
+			r.Violationf("C04:panic:"+c04PanicKey(p), c04StrCase(f, s), "NLRIFromSlice(%s, %x): %s", f, s[:l], p)
 			return
 		}
-		jy := "rejected"
-		if err == nil {
-			jy, _ = c04JSON(y)
+		same := err == nil
+		if same {
+			by, ey := y.Serialize()
+			same = y.String() == sx && bytes.Equal(by, b1) && (ey == nil) == (serr == nil)
 		}
-		if jy != jx {
-			r.Violationf("C04:strings:value-depends-on-bytes-beyond-Len:"+tn, cs, "%s decoder: input %x gives %s claiming %d bytes consumed, but those %d bytes alone give %s", f, s, jx, l, l, jy)
+		if !same {
+			jx, _ := c04JSON(x)
+			jy := "rejected"
+			if err == nil {
+				jy, _ = c04JSON(y)
+			}
+			key := "C04:strings:value-depends-on-bytes-beyond-Len:" + tn
+			if c04MarkerMidStack(x, s) {
+				key = "C04:nlri:" + tn + ":" + c04LabelShapeName // same decoder quirk, seen from the byte side
+			}
+			r.Violationf(key, c04StrCase(f, s), "%s decoder: input %x gives %s claiming %d bytes consumed, but those %d bytes alone give %s", f, s, jx, l, l, jy)
 			return
 		}
 	}
-	var b1 []byte
-	if p := c04Try(func() { b1, err = x.Serialize() }); p != "" {
-		r.Violationf("C04:panic:"+c04PanicKey(p), cs, "%s: Serialize of value decoded from %x: %s", f, s, p)
-		return
-	}
-	if err != nil {
-		r.Violationf("C04:strings:accepted-value-does-not-serialise:"+tn, cs, "%s decoder accepted %x (%s) but the value does not serialise: %v", f, s, jx, err)
+	if serr != nil {
+		jx, _ := c04JSON(x)
+		r.Violationf("C04:strings:accepted-value-does-not-serialise:"+tn, c04StrCase(f, s), "%s decoder accepted %x (%s) but the value does not serialise: %v", f, s, jx, serr)
 		return
 	}
 	if len(b1) != l {
-		r.Violationf("C04:strings:Len!=emitted:"+tn, cs, "%s decoder: %x decoded to %s with Len()=%d, re-serialised to %d bytes %x", f, s, jx, l, len(b1), b1)
+		r.Violationf("C04:strings:Len!=emitted:"+tn, c04StrCase(f, s), "%s decoder: %x decoded to %s with Len()=%d, re-serialised to %d bytes %x", f, s, sx, l, len(b1), b1)
 		return
 	}
 	var x2 bgp.NLRI
 	if p := c04Try(func() { x2, err = bgp.NLRIFromSlice(f, b1) }); p != "" {
-		r.Violationf("C04:panic:"+c04PanicKey(p), cs, "NLRIFromSlice(%s, %x): %s", f, b1, p)
+		r.Violationf("C04:panic:"+c04PanicKey(p), c04StrCase(f, s), "NLRIFromSlice(%s, %x): %s", f, b1, p)
 		return
 	}
 	if err != nil {
-		r.Violationf("C04:strings:reserialised-form-rejected:"+tn, cs, "%s decoder: %x -> %s -> %x is rejected: %v", f, s, jx, b1, err)
-		return
-	}
-	if j2, _ := c04JSON(x2); j2 != jx {
-		r.Violationf("C04:strings:reserialised-form-differs:"+tn, cs, "%s decoder: %x -> %s -> %x -> %s", f, s, jx, b1, j2)
+		r.Violationf("C04:strings:reserialised-form-rejected:"+tn, c04StrCase(f, s), "%s decoder: %x -> %s -> %x is rejected: %v", f, s, sx, b1, err)
 		return
 	}
 	b2, err := x2.Serialize()
+	if x2.String() != sx {
+		r.Violationf("C04:strings:reserialised-form-differs:"+tn, c04StrCase(f, s), "%s decoder: %x -> %s -> %x -> %s", f, s, sx, b1, x2.String())
+		return
+	}
 	if err != nil || !bytes.Equal(b1, b2) {
-		r.Violationf("C04:strings:no-fixpoint:"+tn, cs, "%s decoder: %x -> %x -> %x (%v)", f, s, b1, b2, err)
+		r.Violationf("C04:strings:no-fixpoint:"+tn, c04StrCase(f, s), "%s decoder: %x -> %x -> %x (%v)", f, s, b1, b2, err)
 		return
 	}
 	k := l
 	if k > 2 {
 		k = 2
 	}
-	r.NT(fmt.Sprintf("%s:%s:%x", f, tn, s[:k])) // distinct (family, first two consumed bytes)
+	r.NT(f.String() + ":" + tn + ":" + hex.EncodeToString(s[:k])) // distinct (family, first two consumed bytes)
 	if bytes.Equal(b1, s[:l]) {
 		r.Outcome("strings:accepted:canonical")
 	} else {
 		r.Outcome("strings:accepted:normalised-on-reserialise")
 	}
+}
+
+// c04MarkerMidStack: the decoder returned a one-label withdraw-marker stack ([0] or [0x800000]) although
+// the input's label field does not start with that marker, i.e. it met 0x000000 / 0x800000 further down.
+func c04MarkerMidStack(x bgp.NLRI, s []byte) bool {
+	var labels []uint32
+	switch t := x.(type) {
+	case *bgp.LabeledIPAddrPrefix:
+		labels = t.Labels.Labels
+	case *bgp.LabeledVPNIPAddrPrefix:
+		labels = t.Labels.Labels
+	}
+	if len(labels) != 1 || (labels[0] != 0 && labels[0] != 0x800000) || len(s) < 4 {
+		return false
+	}
+	first := uint32(s[1])<<16 | uint32(s[2])<<8 | uint32(s[3])
+	return first != 0 && first != 0x800000
+}
+
+func c04StrCase(f bgp.Family, s []byte) c04Case {
+	return c04Case{Part: "strings", Fam: f.String(), Hex: hex.EncodeToString(s)}
 }
 
 // c04Templates: structured strings long enough to reach the labelled / VPN decoders' accepting paths:
